@@ -1,4 +1,5 @@
 import LopdfModel.Model.Outlines
+import LopdfModel.Gen.Tables
 /-
   C13 — read-only queries are total on arbitrary object graphs: property theorems.
 
@@ -429,5 +430,144 @@ example : (getOutlines catRef
       [((1, 0), .dict [(K_Outlines, .ref 10 0)]), ((10, 0), .dict [(K_First, .ref 11 0)]),
        ((11, 0), .dict [(K_Title, .str [84] .lit), (K_Dest, .arr [.ref 3 0, .name [70]]), (K_Next, .ref 12 0)]),
        ((12, 0), .dict [(K_Title, .str [85] .lit), (K_Dest, .arr [.ref 3 0, .name [70]])])] 3).isSome = true := by rfl
+
+/-! ## get_named_destinations -/
+
+/-- **exact panic condition of the destination insertion** (F-C13-d2, F-C13-d3): the unchecked
+`val[0]`, `val[1]` and `key.as_str().unwrap()` -/
+theorem insertDest_panic_iff (sIdx sKey : String) (key : Obj) (val : List Obj) (named : Named) (s : String) :
+    insertDest sIdx sKey key val named = .panic s ↔
+      (val.length < 2 ∧ s = sIdx) ∨ (2 ≤ val.length ∧ key.asStr = none ∧ s = sKey) := by
+  unfold insertDest
+  split
+  · simp; exact eq_comm
+  · simp; exact eq_comm
+  · rename_i v0 v1 tl
+    have hlen : ¬ ((v0 :: v1 :: tl).length < 2) := by simp
+    have hlen2 : 2 ≤ (v0 :: v1 :: tl).length := by simp
+    split
+    · constructor
+      · intro h; simp at h
+      · rintro (⟨h, _⟩ | ⟨_, h, _⟩)
+        · exact absurd h hlen
+        · simp [Obj.asStr] at h
+    · rename_i hk
+      constructor
+      · intro h
+        refine Or.inr ⟨hlen2, ?_, by simp at h; exact h.symm⟩
+        cases key <;> simp [Obj.asStr]
+        exact (hk _ _ rfl).elim
+      · rintro (⟨h, _⟩ | ⟨_, _, h⟩)
+        · exact absurd h hlen
+        · simp [h]
+
+/-- the dictionary form panics in addition when `D` is missing (F-C13-d) -/
+theorem insertDestFromDict_panic_iff (sD sIdx sKey : String) (key : Obj) (d : Dict) (named : Named) (s : String) :
+    insertDestFromDict sD sIdx sKey key d named = .panic s ↔
+      (d.get K_D = none ∧ s = sD) ∨
+      (∃ val, (d.get K_D).bind Obj.asArr = some val ∧ insertDest sIdx sKey key val named = .panic s) := by
+  unfold insertDestFromDict
+  split
+  · rename_i h; simp [h]; exact eq_comm
+  · rename_i dv h
+    split
+    · rename_i h2; simp [h, h2]
+    · rename_i val h2; simp [h, h2]
+
+theorem namesLoop_cons (os : Objects) (key val : Obj) (rest : List Obj) (named : Named) :
+    namesLoop os (key :: val :: rest) named =
+      match destOfPair os key val named with
+      | .ok named' => namesLoop os rest named'
+      | .err e => .err e
+      | .panic s => .panic s := by
+  rw [namesLoop]; cases destOfPair os key val named <;> rfl
+
+/-- the `Names` loop adds no panic of its own: **partial totality** under the guard that no pair
+of the array triggers one of the three unchecked operations -/
+theorem namesLoop_partial (os : Objects)
+    (guard : ∀ key val named s, destOfPair os key val named ≠ .panic s) :
+    ∀ (n : Nat) (l : List Obj) (named : Named) (s : String), l.length ≤ n → namesLoop os l named ≠ .panic s := by
+  intro n
+  induction n with
+  | zero => intro l named s hl; cases l <;> simp_all [namesLoop]
+  | succ n ih =>
+    intro l named s hl
+    match l with
+    | [] => simp [namesLoop]
+    | [_] => simp [namesLoop]
+    | key :: val :: rest =>
+      rw [namesLoop_cons]
+      split
+      · exact ih rest _ s (by simp at hl; omega)
+      · simp
+      · rename_i s' h; exact absurd h (guard _ _ _ _)
+
+/-- tree 15 whose `Kids` contains itself -/
+def kidsCycleDoc : Objects := [((15, 0), .dict [(KIDS, .arr [.ref 15 0])])]
+def tree15 : Dict := [(KIDS, .arr [.ref 15 0])]
+
+/-- **F-C13-d4**: `get_named_destinations` recurses without bound on a cyclic `Kids` link -/
+theorem namedDests_kids_cycle_diverges : ∀ (n : Nat) (named : Named), namedDests kidsCycleDoc n tree15 named = none := by
+  intro n
+  induction n with
+  | zero => intro named; rfl
+  | succ n ih =>
+    intro named
+    unfold namedDests
+    have h1 : Dict.get tree15 KIDS = some (.arr [.ref 15 0]) := by rfl
+    have h2 : (Obj.ref 15 0).asRef.bind (getDictionary kidsCycleDoc) = some tree15 := by rfl
+    simp only [h1, Obj.asArr, List.foldl, h2, ih]
+
+/-- **F-C13-d witness**: a named destination dictionary without `D` -/
+theorem namedDests_missing_D_panics :
+    namedDests [((31, 0), .dict [([88], .null)])] 2 [(K_Names, .arr [.str [107] .lit, .ref 31 0])] []
+      = some (.panic S_DEST_REFDICT_D) := by rfl
+
+/-- **F-C13-d2 witness**: destination array of length 1 -/
+theorem namedDests_short_array_panics :
+    namedDests [((31, 0), .arr [.ref 3 0])] 2 [(K_Names, .arr [.str [107] .lit, .ref 31 0])] []
+      = some (.panic S_DEST_REFARR_IDX) := by rfl
+
+/-- **F-C13-d3 witness**: the key of a pair is not a string -/
+theorem namedDests_key_not_string_panics :
+    namedDests [] 2 [(K_Names, .arr [.name [107], .dict [(K_D, .arr [.ref 3 0, .name [70]])]])] []
+      = some (.panic S_DEST_DICT_KEY) := by rfl
+
+/-- non-vacuity: a well-formed leaf is loaded -/
+example : (namedDests [((31, 0), .dict [(K_D, .arr [.ref 3 0, .name [70]])])] 2
+    [(K_Names, .arr [.str [107] .lit, .ref 31 0])] []).isSome = true := by rfl
+
+/-! ## get_toc -/
+
+/-- `get_toc` adds no panic of its own: it panics only through `get_outlines` or `get_pages` -/
+theorem getToc_panic (memMax : Nat) (trailer : Dict) (os : Objects) (fuel : Nat) (s : String)
+    (h : getToc memMax trailer os fuel = some (.panic s)) :
+    getOutlines trailer os fuel = some (.panic s) ∨ getPages memMax trailer os = .panic s := by
+  unfold getToc at h
+  split at h
+  · simp at h
+  · simp at h
+  · rename_i s' h'; simp at h; subst h; exact Or.inl h'
+  · split at h
+    · simp at h
+    · split at h
+      · simp at h
+      · rename_i s' h'; simp at h; subst h; exact Or.inr h'
+      · simp at h
+
+/-! ## decode_text with the one-byte tables -/
+
+/-- `bytes_to_string` does `String::from_utf16(..).expect(..)`: it cannot fail because no cell of
+the tables `get_font_encoding` can select is a UTF-16 surrogate (tables regenerated from the source) -/
+def noSurrogate (t : List (Option Nat)) : Bool :=
+  t.length == 256 && t.all fun c => match c with
+    | some v => !(0xD800 ≤ v && v ≤ 0xDFFF)
+    | none => true
+
+theorem oneByte_tables_no_surrogate :
+    noSurrogate STANDARD_ENCODING = true ∧ noSurrogate MAC_ROMAN_ENCODING = true ∧
+    noSurrogate MAC_EXPERT_ENCODING = true ∧ noSurrogate WIN_ANSI_ENCODING = true ∧
+    noSurrogate PDF_DOC_ENCODING = true := by
+  refine ⟨?_, ?_, ?_, ?_, ?_⟩ <;> decide +kernel
 
 end Lopdf
